@@ -4,7 +4,7 @@ from __future__ import annotations
 
 import copy
 
-from .diff_schema import CATALOGUE, REFLECTABLE, UNREFLECTABLE
+from .diff_schema import CATALOGUE, COLLATABLE, COLLATIONS, REFLECTABLE, UNREFLECTABLE
 
 TNAMES = ["acct", "b_item", "cust", "dept", "evt", "f1", "grp", "h2o", "inv", "jrnl", "k_9", "loc"]
 CNAMES = ["id", "a", "b", "c", "d", "e", "name", "qty", "ref", "ts", "flag", "x1", "y_2", "note", "amt"]
@@ -37,7 +37,10 @@ def gen_type(rng, odd=False):
     else:
         p = rng.randint(1, 38)
         args = [p, rng.randint(0, p)]
-    return {"fam": fam, "args": args}
+    ty = {"fam": fam, "args": args}
+    if fam in COLLATABLE and rng.random() < 0.3:
+        ty["coll"] = rng.choice(COLLATIONS)
+    return ty
 
 
 def gen_default(rng, odd=False, funcs=False):
@@ -122,13 +125,19 @@ def all_names(schema):
     return s
 
 
-def gen_table(rng, name, earlier, used_names, odd=False, max_cols=6, funcs=False):
+def gen_table(rng, name, earlier, used_names, odd=False, max_cols=6, funcs=False, computed=False):
     ncols = rng.randint(1, max_cols)
     cnames = ["id"] + rng.sample(CNAMES[1:], ncols - 1) if rng.random() < 0.8 else rng.sample(CNAMES, ncols)
     cols = []
     for i, cn in enumerate(cnames):
         pk = (cn == "id") or (i == 1 and cnames[0] == "id" and rng.random() < 0.1)
         cols.append(gen_col(rng, cn, odd, pk=pk, funcs=funcs))
+    if computed and rng.random() < 0.35:
+        # a generated column over the first column (C07: nullability of a Computed column with explicit nullable=)
+        ref = cols[0]["name"]
+        cols.append({"name": "gen_%s" % ref, "ty": {"fam": rng.choice(["Integer", "BigInteger", "Numeric"]), "args": []},
+                     "nullable": rng.random() < 0.5, "pk": False, "default": None,
+                     "computed": {"sql": "length(%s) + %d" % (ref, rng.randint(0, 9)), "ref": ref, "persisted": rng.random() < 0.5}})
     t = {"name": name, "cols": cols, "uqs": [], "ixs": [], "fks": []}
     for _ in range(rng.choice([0, 0, 1, 1, 2, 3])):
         ix = gen_index(rng, t, used_names)
@@ -147,13 +156,13 @@ def gen_table(rng, name, earlier, used_names, odd=False, max_cols=6, funcs=False
     return t
 
 
-def gen_schema(rng, odd=False, max_tables=5, max_cols=6, funcs=False):
+def gen_schema(rng, odd=False, max_tables=5, max_cols=6, funcs=False, computed=False):
     n = rng.randint(1, max_tables)
     names = rng.sample(TNAMES, n)
     used = set()
     tables = []
     for nm in names:
-        tables.append(gen_table(rng, nm, list(tables), used, odd, max_cols, funcs))
+        tables.append(gen_table(rng, nm, list(tables), used, odd, max_cols, funcs, computed))
     return {"tables": tables}
 
 
@@ -166,6 +175,8 @@ def referenced_tables(schema, exclude=None):
 
 def col_in_use(schema, tname, cname):
     for t in schema["tables"]:
+        if t["name"] == tname and any(c.get("computed") and c["computed"]["ref"] == cname for c in t["cols"]):
+            return True
         if t["name"] == tname:
             for o in t["ixs"] + t["uqs"] + t["fks"]:
                 if cname in o["cols"]:
@@ -222,6 +233,12 @@ def candidate_mutations(rng, schema, odd=False):
         c["nullable"] = not c["nullable"]
 
     out.append(({"m": "flipNullable", "t": tn, "c": c0["name"]}, mutated(flip)))
+    for cg in [c for c in t0["cols"] if c.get("computed")]:
+        def flipg(s, cg=cg):
+            c = next(c for c in tbl(s, tn)["cols"] if c["name"] == cg["name"])
+            c["nullable"] = not c["nullable"]
+
+        out.append(({"m": "flipNullable", "t": tn, "c": cg["name"]}, mutated(flipg)))
     # changeType
     c1 = rng.choice(t0["cols"])
     nty = gen_type(rng, odd)
@@ -231,7 +248,7 @@ def candidate_mutations(rng, schema, odd=False):
 
     out.append(({"m": "changeType", "t": tn, "c": c1["name"], "ty": nty}, mutated(chty)))
     # changeDefault
-    c2 = rng.choice(t0["cols"])
+    c2 = rng.choice([c for c in t0["cols"] if not c.get("computed")])   # a Computed column has no plain server default
     nd = gen_default(rng, odd)
 
     def chd(s):
